@@ -37,6 +37,126 @@ func init() {
 		}
 		base(r, n)
 		genC04Declared(r.fork(), n)
+		genC04Required(r.fork(), n)
+	}
+}
+
+// the field a path of field / index / key steps ends in (nil when its last step is not a declared field)
+func c04FldAt(root *Ty, p []Step) *Fld {
+	if len(p) == 0 || p[len(p)-1].Kind != 1 {
+		return nil
+	}
+	parent := typeAt(root, p[:len(p)-1])
+	if parent == nil || parent.K != thrift.STRUCT {
+		return nil
+	}
+	for _, f := range parent.Fields {
+		if int64(f.ID) == p[len(p)-1].N {
+			return f
+		}
+	}
+	return nil
+}
+
+// Value API, last step a field NAME, over descriptors that declare required / optional / default fields at every level
+// (root, nested struct, struct below a list / set, struct below a map): unset the field by name, put it back, unset it by id
+func genC04Required(r *rng, n int) {
+	nh := n / 40
+	if nh < 6 {
+		nh = 6
+	}
+	for hi := 0; hi < nh; hi++ {
+		g := newTgen(r.fork())
+		g.maxDepth = 3
+		g.allowReq = true
+		root := g.genStruct(0)
+		// structs below containers, so that named fields exist under a list and under a map
+		lid, mid := int16(21000+r.intn(500)), int16(22000+r.intn(500))
+		root.Fields = append(root.Fields,
+			&Fld{ID: lid, Name: fmt.Sprintf("ls_%d", lid), T: &Ty{K: thrift.LIST, Elem: g.genStruct(2)}, Req: r.intn(3)},
+			&Fld{ID: mid, Name: fmt.Sprintf("ms_%d", mid), T: &Ty{K: thrift.MAP, Key: &Ty{K: thrift.STRING}, Elem: g.genStruct(2)}, Req: r.intn(3)})
+		idl := g.idl(root)
+		desc, err := parseThrift(idl, thrift.Options{})
+		if err != nil {
+			die("generated IDL does not parse: %v\n%s", err, idl)
+		}
+		val := g.genValue(root, 0)
+		buf := val.encode(nil)
+		var all [][]Step
+		val.allPaths(nil, &all, 300, r)
+		var req, other [][]Step
+		for _, p := range all {
+			if f := c04FldAt(root, p); f != nil {
+				if f.Req == 1 {
+					req = append(req, p)
+				} else {
+					other = append(other, p)
+				}
+			}
+		}
+		cands := req
+		if len(cands) == 0 || r.chance(25) {
+			cands = other
+		}
+		if len(cands) == 0 {
+			continue
+		}
+		value := generic.NewValue(desc, append([]byte(nil), buf...))
+		fields := []string{fi(int(thrift.STRUCT)), fx(buf)}
+		var emitted []string
+		done := 0
+		for k, m := 0, 1+r.intn(3); k < m; k++ {
+			p := cands[r.intn(len(cands))]
+			for try := 0; try < 3 && len(p) < 2; try++ {
+				p = cands[r.intn(len(cands))] // prefer fields below the root
+			}
+			f := c04FldAt(root, p)
+			type op struct {
+				kind   int
+				byName bool
+			}
+			for _, o := range []op{{4, true}, {3, r.bool()}, {4, r.chance(30)}} {
+				sub := g.genValue(f.T, 2)
+				sb := sub.encode(nil)
+				gp := toPath(p)
+				pEmit := p
+				byName := 0
+				if o.byName {
+					if np, changed := nameSteps(root, p, r); changed {
+						gp = toPath(np)
+						pEmit = np
+						if len(np) >= 3 && np[len(np)-1].Kind == 6 {
+							byName = 4
+						}
+					}
+				}
+				var exist bool
+				var e error
+				ok, _ := noPanic(func() {
+					if o.kind == 3 {
+						exist, e = value.SetByPath(generic.Value{Node: generic.NewNode(f.T.K, append([]byte(nil), sb...)), Desc: descFor(desc, p)}, gp...)
+					} else {
+						e = value.UnsetByPath(gp...)
+					}
+				})
+				ei := 0
+				if !ok {
+					ei = 3
+				} else if e != nil {
+					ei = 1
+				}
+				emitted = append(emitted, fi(o.kind))
+				emitted = append(emitted, pathFields(pEmit)...)
+				emitted = append(emitted, fi(int(f.T.K)), fx(sb), fi(ei), fb(exist), fx(value.Raw()), fi(1|declBit(root, p)|byName))
+				done++
+				if !ok {
+					break
+				}
+			}
+		}
+		fields = append(fields, fi(done))
+		fields = append(fields, emitted...)
+		out.emit(401, fields...)
 	}
 }
 
@@ -69,6 +189,7 @@ func genC04Declared(r *rng, n int) {
 	for hi := 0; hi < nh; hi++ {
 		g := newTgen(r.fork())
 		g.maxDepth = 3
+		g.allowReq = true
 		root := g.genStruct(0)
 		if r.chance(40) {
 			kt := &Ty{K: thrift.STRING}
